@@ -48,21 +48,30 @@ def textx_isinstance(obj: Any, obj_cls: type[Any]) -> bool:
     Returns:
         True if obj is an instance of obj_cls.
     """
-    if obj_cls.__name__ == "OBJECT":
-        return True
-    if isinstance(obj, obj_cls):
-        return True
-    if (
-        hasattr(obj_cls, "_tx_fqn")
-        and hasattr(obj, "_tx_fqn")
-        and obj_cls._tx_fqn == obj._tx_fqn
-    ):
-        return True
-    if hasattr(obj_cls, "_tx_inh_by"):
-        for cls in obj_cls._tx_inh_by:
-            if textx_isinstance(obj, cls):
-                return True
-    return False
+
+    # Abstract rules may reference each other in a cycle (directly or
+    # indirectly) so keep track of the visited classes.
+    visited = set()
+
+    def _isinstance(obj_cls):
+        if obj_cls.__name__ == "OBJECT":
+            return True
+        if isinstance(obj, obj_cls):
+            return True
+        if (
+            hasattr(obj_cls, "_tx_fqn")
+            and hasattr(obj, "_tx_fqn")
+            and obj_cls._tx_fqn == obj._tx_fqn
+        ):
+            return True
+        if hasattr(obj_cls, "_tx_inh_by"):
+            visited.add(id(obj_cls))
+            for cls in obj_cls._tx_inh_by:
+                if id(cls) not in visited and _isinstance(cls):
+                    return True
+        return False
+
+    return _isinstance(obj_cls)
 
 
 def get_model(obj: T) -> Any:
